@@ -48,6 +48,11 @@ Theorem C03_marker_refuses_other_first_byte : forall rs b d e,
 Proof. exact marker_refuses_other_first_byte. Qed.
 Print Assumptions C03_marker_refuses_other_first_byte.
 
+Theorem C03_marker_refuses_empty_stream : forall rs e,
+  stream_of rs = ([], e) -> accept_stream rs = Refused.
+Proof. exact marker_refuses_empty_stream. Qed.
+Print Assumptions C03_marker_refuses_empty_stream.
+
 (* END TO END, conditional on [quic_ok fair quic]: for every fault schedule the hypothesis calls
    fair, what the acceptor's application reads is exactly what the dialler's application wrote,
    in order, followed by end-of-stream iff the dialler closed *)
